@@ -138,6 +138,82 @@ def h_flow(t, part):
     return None
 
 
+# ---- msgpack serializer: undecodable frames never reach a handler ------------------------------------------
+def h_msgpack(t, part):
+    import msgpack
+    asyncio_ = part['async']
+    calls = []
+
+    def mk(kind):
+        if asyncio_:
+            async def f(sid, *a):
+                calls.append((kind, sid, a))
+        else:
+            def f(sid, *a):
+                calls.append((kind, sid, a))
+        return f
+    # the frame: a msgpack value chosen by the tape
+    shape = t.choice(4)
+    keys = []
+    if shape == 0:
+        present = [t.bool() for _ in range(4)]
+        ptype = t.choice(5)                    # 0..3 and a string
+        nspk = t.choice(4)
+        value = {}
+        if present[0]:
+            value['type'] = [0, 1, 2, 3, 'x'][ptype]
+        if present[1]:
+            value['nsp'] = ['/', '/a', None, 5][nspk]
+        if present[2]:
+            value['data'] = [['ev', 1], {'a': 1}, None][t.choice(3)]
+        if present[3]:
+            value['id'] = 1
+        decodable = present[0] and present[1]
+    elif shape == 1:
+        value = [7, [2, '/', ['ev']], 'text', None][t.choice(4)]
+        decodable = False
+    with notrace():
+        if shape in (0, 1):
+            frame = msgpack.dumps(value)
+        elif shape == 2:
+            frame = msgpack.dumps({'type': 2, 'nsp': '/', 'data': ['ev', 1]})[:-2]      # truncated
+            decodable = False
+        else:
+            frame = b'\xc1\xff\x00'                                                      # never-used msgpack byte
+            decodable = False
+        w = worlds.SWorld(asyncio_, async_handlers=False, P='msgpack')
+        for ns in ('/', '/a'):
+            w.s.on('connect', mk('connect'), namespace=ns)
+            w.s.on('ev', mk('ev'), namespace=ns)
+            w.s.on('disconnect', mk('disconnect'), namespace=ns)
+        for e in ('e0', 'e1', 'e9'):
+            w.open(e)
+        pc = w.s.packet_class
+        w.recv('e0', pc(packet.CONNECT, namespace='/').encode())
+        w.recv('e1', pc(packet.CONNECT, namespace='/').encode())
+        b1 = w.sid('e1', '/')
+        w.call(w.s.emit('q', 1, to=w.sid('e0', '/'), callback=lambda *a: calls.append(('callback', None, a))))
+        del calls[:]
+        before = (sorted(map(str, w.s.rooms(b1))), len(w.frames('e1')))
+        sender = 'e9' if part['stranger'] else 'e0'       # a transport that never joined anything / the offender
+        w.recv(sender, frame)
+        w.finish()
+        if not decodable and calls:
+            return Fail('hostile:undecodable-input-reached-handler:msgpack', 'frame %r (%r) from %s ran %r' % (
+                frame, value if shape < 2 else 'garbage', sender, calls))
+        if [c for c in calls if c[1] == b1]:
+            return Fail('hostile:handler-ran-for-bystander', repr(calls))
+        after = (sorted(map(str, w.s.rooms(b1))), len(w.frames('e1')))
+        if after != before:
+            return Fail('hostile:bystander-changed:msgpack', '%r -> %r' % (before, after))
+        n0 = len(calls)
+        w.recv('e1', pc(packet.EVENT, data=['ev', 'sentinel'], namespace='/').encode())
+        if calls[n0:] != [('ev', b1, ('sentinel',))]:
+            return Fail('hostile:sentinel-dispatch:msgpack', repr(calls[n0:]))
+    t.reached('msgpack')
+    return None
+
+
 # ---- (a) the decoder on arbitrary frames (bsx) --------------------------------------------------------------
 INT_ARGS = []
 
@@ -254,6 +330,8 @@ def flow_parts(tier):
 
 
 CHECKS = [
+    dict(name='msgpack-frames', fn=h_msgpack, parts=[{'async': a, 'stranger': st} for a in (False, True) for st in (False, True)],
+         budget={'quick': 60, 'thorough': 120}),
     dict(name='bystanders', fn=h_flow, parts=flow_parts, budget={'quick': 80, 'thorough': 900}, per_path_s=20),
     dict(name='decoder-domain', engine='bsx', run=_run, replay=_replay, parts=decode_parts,
          budget={'quick': 80, 'thorough': 900}),
@@ -273,7 +351,9 @@ META = dict(
                      'with bystander events; arbitrary frames <= 8 code points; id run of '
                      '98 concrete digits + 4 symbolic characters; count run of 9 + 5',
             'thorough': '2 full-palette / 3 reduced-palette offender frames; frames <= 12; digit runs 97..99 / 8..10'},
-    outside=['the offender\'s own connection', 'the msgpack and JSON parsers themselves (C extensions / stdlib)',
+    outside=['the offender\'s own connection', 'the msgpack and JSON parsers themselves (C extensions / stdlib; msgpack '
+             'frames are concrete values chosen by the solver from a palette of maps with missing / wrong-typed keys, '
+             'non-maps and garbage)',
              'payloads outside the palette'],
     stubs=['engine.io server -> FakeEio/FakeAEio (contains exceptions)', 'JSON text -> TokJson / symbolic text',
            'hostile packets are injected at Packet.decode with fields from the decoder\'s proven output domain'],
